@@ -245,13 +245,7 @@ impl Property for C01 {
     fn judge_tape(&self, tape: &[u8], ctx: &mut Ctx) -> Judged {
         let mut t = Tape::new(tape);
         let g = generate(&mut t, &Profile::full());
-        let n = COUNTER.with(|c| {
-            let mut c = c.borrow_mut();
-            *c += 1;
-            *c
-        });
-        let every = ctx.tier.pick(40, 10);
-        let sample = ctx.counting && n % every == 0;
+        let sample = tape_sample(tape, ctx.tier.pick(40, 10));
         judge_program(&g.prog, ctx, sample, g.fault.as_deref())
     }
     fn replay(&self, case: &Value, ctx: &mut Ctx) -> Judged {
